@@ -464,12 +464,12 @@ PROBES = {
     'C07': ['variant_b', 'variant_c', 'variant_d', 'variant_g', 'preempt', 'pool_cross_task_reuse'],
     'C08': ['c08_head_with_get', 'c08_head_without_get', 'c08_content_length_checked', 'op_reject'],
     'C09': ['c09_traces_checked', 'op_guse', 'op_gadd', 'op_gnew'],
-    'C13': ['c13_acceptor', 'c13_no_acceptor', 'c13_composites_checked'],
-    'C14': ['c14_matches_checked', 'op_delete', 'op_regic'],
+    'C13': ['c13_acceptor', 'c13_no_acceptor', 'c13_composites_checked', 'c13_late_admin'],
+    'C14': ['c14_matches_checked', 'op_delete', 'op_regic', 'c14_conc_worlds', 'c14_conc_match_checked', 'preempt'],
     'C16': ['fault_h_pre', 'fault_h_mid', 'fault_mw_pre', 'fault_mw_post', 'fault_site_g404', 'fault_site_head', 'fault_value_rt',
             'variant_conc', 'variant_group-conc', 'recovery_none', 'preempt'],
     'C17': ['op_reject', 'c17_snapshots_compared', 'op_reject_duplicate', 'op_reject_malformed', 'op_reject_identical', 'op_reject_unsupported', 'op_reject_method'],
-    'C18': ['c18_trace_any_path', 'c18_trace_ordinary', 'c18_allow_checked', 'short_read', 'op_reject'],
+    'C18': ['c18_trace_any_path', 'c18_trace_ordinary', 'c18_allow_checked', 'short_read', 'op_reject', 'trace_write_fault_panic', 'trace_write_fault_err'],
     'C19': ['c19_steps_compared', 'op_fclean', 'op_prefix', 'op_resource', 'op_url'],
     'C20': ['op_new', 'op_destroy', 'pool_cross_task_reuse', 'pool_reuse_oldest', 'preempt'],
 }
